@@ -669,7 +669,29 @@ func runCase(c caseT) (string, string) {
 	return runMod(c)
 }
 
+// FirstCalls is the menu of the fresh-process call-order check.
+func FirstCalls() []fw.Call {
+	var out []fw.Call
+	seed := "module example.com/m\n\ngo 1.21\n\nrequire (\n\ta.com/x v1.0.0 // indirect; s1\n\tb.com/y v1.0.0 // s2\n)\n\nexclude (\n\tc.com/z v1.10.0\n\tc.com/z v1.9.0\n)\n"
+	for _, c := range []caseT{
+		{Seed: seed, Setter: "SetRequire", Request: "a.com/x@v1.1.0,c.com/z@v1.0.0!"},
+		{Seed: seed, Setter: "SetRequireSeparateIndirect", Request: "a.com/x@v1.1.0,c.com/z@v1.0.0!"},
+		{Seed: seed, Setter: "SetRequireSeparateIndirect", Request: ""},
+		{Seed: "module example.com/m\n\nrequire a.com/x v1.0.0\n", Setter: "SetRequire", Request: "b.com/y@v1.0.0", Then: "SRSI:a.com/x@v1.0.0!"},
+		{Work: true, Seed: "go 1.21\n\nuse (\n\t./a // s1\n\t./b\n)\n", Setter: "SetUse", Request: "./b,./c"},
+		{Work: true, Seed: "go 1.21\n", Setter: "SetUse", Request: "./a"},
+	} {
+		c := c
+		out = append(out, fw.Call{Name: c.Setter + "(" + c.Request + ")" + c.Then, F: func() string {
+			msg, text := runCase(c)
+			return msg + "|" + text
+		}})
+	}
+	return out
+}
+
 func Run(r *fw.Run) {
+	defer fw.FirstCallOrders(r, r.ID, FirstCalls(), nil)
 	kmax := r.Pick(2, 3)
 	var sds []string
 	if r.Thorough() {
